@@ -39,7 +39,10 @@
                                      transaction tap builds and the reported signature hash is `Spec.bip341Digest sha256 tx' 0 0x00
                                      [spent] none ext` of the transaction it outputs (ext = none on the key path, TapLeaf hash of the
                                      printed script with code separator position 0xffffffff on the script path); `runTx` returns it
-    tap_sighash_multi_input_aborts   any other number of inputs: refused or the `Init` assertion (the documented limitation)
+    tap_sighash_multi_input_refused  any other number of inputs: refused (by `configure_tx_txin` or by `calc_sighash`'s input-count check)
+    tap_sighash_never_abnormal       P2TR spent output, empty scriptSig: no assertion is reached for any number of inputs and any witness
+    mainArgs_never_addressAssert     the prefix check of `main` makes the encoder's upper-case assertion unreachable
+                                     (`bech32mAddress_of_hrpOk`: a checked prefix always gives an address)
     tap_roundtrip_keypath            a 64-byte signature valid under the output key over the reported hash, passed back with --sig:
                                      the transaction tap outputs has witness [sig] and `Spec.verifyScript` accepts the input
     tap_roundtrip_scriptpath         the same for a leaf `<32-byte key> OP_CHECKSIG` spent without arguments: witness
@@ -56,6 +59,7 @@ import Btcdeb.Spec.TapTree
 import BtcdebProofs.Lemmas.TapTree
 import BtcdebProofs.Lemmas.TapSpend
 import BtcdebProofs.Properties.C05
+import BtcdebProofs.Properties.C14
 namespace Btcdeb.Proofs.C06
 open Btcdeb Btcdeb.Model Btcdeb.Model.Tap Btcdeb.Spec Btcdeb.Proofs.TapTree
 
@@ -1031,22 +1035,120 @@ theorem tap_sighash_is_bip341 {cx : Tap.Ctx} (h32 : Hash32 cx) (hc : HashCtx) (t
   rw [TapSpend.M.getD_of_getElem? _ _ _ hspent, hrun]
   simp only [hcalc]
 
-/-- **The documented limitation.**  With any other number of inputs in the spending transaction tap cannot report a
-    signature hash: either `configure_tx_txin` refuses the transaction, or `PrecomputedTransactionData::Init`, which
-    `calc_sighash` calls with the single spent output it knows, dies on `assert(m_spent_outputs.size() == txTo.vin.size())`. -/
-theorem tap_sighash_multi_input_aborts (hc : HashCtx) (tc : TapCtx) (cr : SigCrypto) (tx txin : Tx) (idx vout : Nat)
+/-- **More than one input (or none).**  Since the fix of `Instance::calc_sighash` tap refuses such a spending transaction
+    with a diagnostic ("cannot compute the taproot signature hash of a transaction with N inputs", exit 1) — or
+    `configure_tx_txin` has refused it before.  No assertion is reached. -/
+theorem tap_sighash_multi_input_refused (hc : HashCtx) (tc : TapCtx) (cr : SigCrypto) (tx txin : Tx) (idx vout : Nat)
     (w : List Bytes) (hn : tx.vin.length ≠ 1) :
     calcSighash hc tc cr (setWitness tx idx w) txin idx vout = .error .configure ∨
-    calcSighash hc tc cr (setWitness tx idx w) txin idx vout =
-      .error (.step (.abnormal "assert(m_spent_outputs.size() == txTo.vin.size())")) := by
+    calcSighash hc tc cr (setWitness tx idx w) txin idx vout = .error .inputCount := by
   have hl : (setWitness tx idx w).vin.length ≠ 1 := by simpa [setWitness] using hn
   unfold calcSighash
   cases configureTxTxin hc tc (setWitness tx idx w) txin idx vout _ with
   | none => exact Or.inl rfl
-  | some c =>
-    right
-    simp only
-    rw [Btcdeb.Proofs.Sighash.calcSighashTxData_multi_input_aborts cr _ _ _ hl]
+  | some c => right; simp only; rw [if_pos hl]
+
+/-- **Never abnormal, for every number of inputs and every witness.**  Whenever the input in question has an empty scriptSig
+    and spends a P2TR output `OP_1 <32 bytes>` (what tap's own check of the scriptPubKey and the address it printed stand
+    for), computing the signature hash ends in a digest, in `configure_tx_txin`'s refusal, in the input-count refusal or in
+    "Failed to generate schnorr signature hash!" — never in an assertion of `Init` / `SignatureHashSchnorr`. -/
+theorem tap_sighash_never_abnormal (hc : HashCtx) (tc : TapCtx) (cr : SigCrypto) (tx txin : Tx) (idx vout : Nat)
+    (inp : TxIn) (spent : TxOut) (key : Bytes)
+    (hi : tx.vin[idx]? = some inp) (hss : inp.scriptSig = []) (hs : txin.vout[vout]? = some spent)
+    (hspk : spent.scriptPubKey = 0x51 :: 0x20 :: key) (hk : key.length = 32) (k : String) :
+    calcSighash hc tc cr tx txin idx vout ≠ .error (.step (.abnormal k)) :=
+  TapSpend.M.calcSighash_never_abnormal_p2tr hc tc cr tx txin idx vout inp spent key hi hss hs hspk hk k
+
+/-! ## The address prefix: since tap validates `--addrprefix`, the encoder's assertion is unreachable -/
+
+/-- a prefix that passes tap's check (1..83 characters in 33..126, no upper case) and a witness version below 32: the
+    encoder returns an address (`bech32::Encode` neither asserts nor indexes outside its character set) -/
+theorem bech32mAddress_of_hrpOk (hrp : String) (v : Nat) (prog : Bytes) (h : hrpOk hrp = true) (hv : v < 32) :
+    bech32mAddress hrp v prog ≠ none := by
+  have hup : ∀ c ∈ hrp.toUTF8.toList, ¬ (65 ≤ c.toNat ∧ c.toNat ≤ 90) := by
+    simp only [hrpOk, Bool.and_eq_true, List.all_eq_true, decide_eq_true_eq, Bool.not_eq_true'] at h
+    intro c hc hcc
+    have := (h.2 c hc).2
+    simp [hcc.1, hcc.2] at this
+  have h85 := (Btcdeb.C14.convertBits_8_5 (prog.map UInt8.toNat) (by
+    intro x hx; simp only [List.mem_map] at hx; obtain ⟨b, _, rfl⟩ := hx; exact b.toNat_lt)).1
+  have hvals : ∀ x ∈ (UInt8.ofNat v :: ((convertBits 8 5 true (prog.map UInt8.toNat)).1.map UInt8.ofNat)), x.toNat < 32 := by
+    intro x hx
+    simp only [List.mem_cons, List.mem_map] at hx
+    rcases hx with rfl | ⟨d, hd, rfl⟩
+    · simp [UInt8.toNat_ofNat']; omega
+    · have := h85 d hd; simp [UInt8.toNat_ofNat']; omega
+  have := Btcdeb.C14.bech32_encode_spec .BECH32M (by decide) hrp.toUTF8.toList _ hup hvals
+  unfold bech32mAddress
+  simp only [this]
+  simp
+
+/-- `run` ends in the encoder's assertion only if the encoder can fail -/
+theorem run_ne_addressAssert {cx : Tap.Ctx} {bech : String → Nat → Bytes → Option String} {hrp : String} {spk : Option Bytes}
+    {internal : Bytes} {scripts : List Bytes} {sel : Option (Nat × List Bytes)} (hb : ∀ q, bech hrp 1 q ≠ none) :
+    run cx bech hrp spk internal scripts sel ≠ .error .addressAssert := by
+  intro h
+  unfold run at h
+  split at h; · cases h
+  split at h; · cases h
+  split at h; · cases h
+  split at h; · cases h
+  split at h; · cases h
+  split at h
+  · next e hctl =>
+    cases h
+    unfold controlTail at hctl
+    split at hctl
+    · cases hctl
+    · split at hctl <;> cases hctl
+  simp only at h
+  split at h; · cases h
+  split at h; · cases h
+  split at h; · cases h
+  split at h
+  · next hq => exact hb _ hq
+  · cases h
+
+theorem readScripts_ne_addressAssert (vcx : VCtx) : ∀ (l : List Bytes) (i : Nat),
+    mainArgs.readScripts vcx i l ≠ .error (.tap .addressAssert)
+  | [], i => by simp [mainArgs.readScripts]
+  | a :: rest, i => by
+    intro h
+    unfold mainArgs.readScripts at h
+    split at h; · cases h
+    split at h; · cases h
+    split at h
+    · next e he => cases h; exact readScripts_ne_addressAssert vcx rest (i + 1) he
+    · cases h
+
+/-- **`Err.addressAssert` is unreachable from `main`**: the prefix is checked before anything else -/
+theorem mainArgs_never_addressAssert (cx : Tap.Ctx) (vcx : VCtx) (hrp : String) (l : List Bytes) :
+    mainArgs cx vcx bech32mAddress hrp l ≠ .error (.tap .addressAssert) := by
+  intro h
+  unfold mainArgs at h
+  split at h; · cases h
+  split at h; · cases h
+  next hok =>
+  have hok' : hrpOk hrp = true := by simpa using hok
+  have hb : ∀ q, bech32mAddress hrp 1 q ≠ none := fun q => bech32mAddress_of_hrpOk hrp 1 q hok' (by decide)
+  split at h; · cases h
+  split at h; · cases h
+  dsimp only at h
+  split at h; · cases h
+  split at h; · cases h
+  split at h
+  · next e he =>
+    cases h
+    split at he
+    · cases he
+    · try dsimp only at he
+      split at he; · cases he
+      split at he <;> cases he
+  · split at h
+    · next e he => cases h; exact readScripts_ne_addressAssert vcx _ 0 he
+    · split at h
+      · next e he => cases h; exact run_ne_addressAssert hb he
+      · cases h
 
 /-! ## The round trip clause: a signature over the reported digest, passed back with --sig, gives a transaction that validates -/
 
